@@ -291,7 +291,31 @@ pub fn script<S: Src, const WHICH: u8>(s: &mut S) {
     s.reached("c07.script");
 }
 
+/// set(any key, any value) on the empty table, then pop: the value comes back, the key is absent
+/// (from the key list AND the hash part), the table is empty, and an append then uses index 0
+pub fn set_then_pop<S: Src, const APPEND: bool>(s: &mut S) {
+    let mut t = CaoLangTable::with_capacity(8, proxy()).unwrap();
+    let k = s.i64();
+    let v = s.i64();
+    assert!(t.insert(Value::Integer(k), Value::Integer(v)).is_ok(), "C07.set_ok");
+    let r = t.pop();
+    assert!(matches!(r, Ok(Value::Integer(x)) if x == v), "C07.pop_returns_most_recent_value");
+    assert!(t.get(&Value::Integer(k)).is_none(), "C07.popped_key_is_absent");
+    assert!(t.len() == 0, "C07.len_counts_distinct_keys");
+    assert!(matches!(t.nth_key(0), Value::Nil), "C07.nth_key_beyond_length_is_nil");
+    if APPEND {
+        let w = s.i64();
+        assert!(t.append(Value::Integer(w)).is_ok(), "C07.append_ok");
+        assert!(ival(t.get(&Value::Integer(0))) == Some(w), "C07.append_key_is_smallest_unused_not_below_length");
+        assert!(t.len() == 1, "C07.len_counts_distinct_keys");
+    }
+    std::mem::forget(t);
+    s.reached("c07.set_then_pop");
+}
+
 crate::harnesses! {
+    c07_set_then_pop / 12 => set_then_pop::<_, false>;
+    c07_set_then_pop_then_append / 12 => set_then_pop::<_, true>;
     c07_script_0 / 12 => script::<_, 0>;
     c07_script_1 / 12 => script::<_, 1>;
     c07_script_2 / 12 => script::<_, 2>;
